@@ -236,7 +236,7 @@ pub fn install_quiet_panic_hook() {
             .map(|l| format!("{}:{}", l.file(), l.line()))
             .unwrap_or_default();
         let full = format!("{msg} @ {loc}");
-        if verbose || loc.contains("/verif/mc/src") {
+        if verbose || loc.contains("/verif/mc/src") || loc.starts_with("src/") {
             eprintln!("[panic] {full}");
         }
         LAST_PANIC.with(|p| *p.borrow_mut() = full);
